@@ -27,6 +27,9 @@ type PlanC13 struct {
 	// TermCtxMs is the context deadline of the terminating call (0 = 20 s). With a short one the
 	// call may give up while traffic is in flight: the session must still be released.
 	TermCtxMs int `json:"term_ctx_ms,omitempty"`
+	// S2CSendCtxMs > 0: the server's sends have this context and the server-to-client link a small
+	// send buffer, so that a send may be given up in the middle of its write before the end
+	S2CSendCtxMs int `json:"s2c_send_ctx_ms,omitempty"`
 }
 
 func genC13(t *simrt.Tape, tier string) interface{} {
@@ -57,6 +60,13 @@ func genC13(t *simrt.Tape, tier string) interface{} {
 		p.Faults = benignFaults(t, 1500)
 		p.Back = benignFaults(t, 1500)
 		p.Faults.Capacity, p.Back.Capacity = 0, 0
+	}
+	if k := p.Conf.Listeners[0]; (k == "tcp" || k == "ws") && len(p.S2C) > 0 && t.Draw(5) == 0 {
+		p.S2CSendCtxMs = []int{20, 200, 900}[t.Draw(3)]
+		p.Back.Capacity = []int{64, 512}[t.Draw(2)]
+		if len(p.CliDelay) == 0 {
+			p.CliDelay = []int{300}
+		}
 	}
 	return p
 }
@@ -217,7 +227,11 @@ func runC13(w *World, pi interface{}) {
 		cliSender = highSender{hc}
 	}
 	_, d1 := runSenders(w, "c2s", p.C2S, cliSender)
-	_, d2 := runSenders(w, "s2c", p.S2C, sch)
+	s2cCtx := 20 * time.Minute
+	if p.S2CSendCtxMs > 0 {
+		s2cCtx = time.Duration(p.S2CSendCtxMs) * time.Millisecond
+	}
+	s2cRecs, d2 := runSendersCtx(w, "s2c", p.S2C, sch, s2cCtx)
 	time.Sleep(time.Duration(p.AtMs) * time.Millisecond)
 	if p.Term == 3 {
 		// a high-level client that is used again after Close reconnects by design: its own senders stop first
@@ -278,6 +292,17 @@ func runC13(w *World, pi interface{}) {
 		// (a terminating call that was given too short a context and reported that it gave up has
 		// not ended the session in an orderly way: only the release rules below apply then)
 		gaveUp := p.TermCtxMs > 0 && (p.Term == 1 || p.Term == 2) && termErr != nil
+		// (likewise when one of the server's sends had been given up in the middle of its write: the
+		// transports cannot write after that, so the terminal envelope cannot be delivered)
+		if p.S2CSendCtxMs > 0 {
+			for _, rs := range s2cRecs {
+				for _, r := range rs {
+					if r.err != nil {
+						gaveUp = true
+					}
+				}
+			}
+		}
 		if !ok && !gaveUp && (termErr == nil || p.Term >= 1) {
 			what := "state=" + string(ch.State())
 			detail := ""
@@ -407,7 +432,7 @@ func init() {
 		MaxSim:    3 * time.Hour,
 		PanicRule: "C13.panic",
 		Rule: "plans = (listener kind tcp/tcp+tls/ws/wss/in-process, buffer sizes incl. 0, terminator in {client FinishSession, server FinishSession, server FailSession, Client.Close of the high-level client, Server.Close}, the instant of the end relative to establishment, " +
-			"0-2 sender tasks per direction with traffic in flight, slow handlers/consumers, client consuming through a mux or four stream readers, benign link faults, terminating calls with a context of 1-400 ms that may give up mid-way); oracle: terminating call returns and disconnects the initiator, peer reaches the terminal state, " +
+			"0-2 sender tasks per direction with traffic in flight, slow handlers/consumers, client consuming through a mux or four stream readers, benign link faults, terminating calls with a context of 1-400 ms that may give up mid-way, server sends with short contexts behind a small send buffer that may be given up mid-write); oracle: terminating call returns and disconnects the initiator, peer reaches the terminal state, " +
 			"receiver-done and streams close and consumers return within 30 s, Finished fires once, a send on the ended session is refused rather than left blocked, after both sides closed no session goroutine and no open connection end remains; goroutine panics are violations; non-trivial = session established; distinct = distinct (plan JSON, event-log hash)",
 	})
 }
